@@ -99,6 +99,18 @@ def run_verus(unit_path, logdir, rlimit=None, threads=None, extra=(), timeout=18
     return r
 
 
+def resolve_name(r, vname):
+    """Verus names a trait-impl method after the module that defines the *type*; fall back to a unique suffix match."""
+    if vname in r.fn_status or vname in r.obligations:
+        return vname
+    parts = vname.split('::')
+    suffix = '::' + '::'.join(parts[-2:])
+    cands = [k for k in set(list(r.fn_status.keys()) + list(r.obligations.keys())) if k.endswith(suffix)]
+    if len(cands) == 1:
+        return cands[0]
+    return vname
+
+
 class Failure:
     def __init__(self):
         self.message = ''
